@@ -9,7 +9,7 @@ from ..model import Model
 from ..report import Result
 from ..terms import T, const, mk, uncopy
 from .c13 import W, add_obs_obligation, autoreset_obligations
-from .common import txt
+from .common import txt, wrapper_env_attr
 
 EXPLANATION = (
     "Decided on the value-flow graph of jumanji/wrappers.py with the wrapped environment abstract: (R1) VmapWrapper.reset/"
@@ -47,7 +47,7 @@ def check(tier: str) -> Result:
     # ---- R1 VmapWrapper
     ci = tree.classes[W + "VmapWrapper"]
     self_t = mk("self", ci.qual)
-    E = mk("attr", self_t, "_env")
+    E = mk("attr", self_t, wrapper_env_attr(tree))
     for meth, nparams in (("reset", 1), ("step", 2)):
         f = ci.methods.get(meth)
         if f is None:
@@ -84,7 +84,7 @@ def check(tier: str) -> Result:
         S = mk("param", f.qual, f.params[1])
         r = uncopy(vfg.apply_func(f, self_t, ci, [S], {}, None, None))
         sl = uncopy(vfg.apply_func(ts, None, None, [S, const(0)], {}, None, None))
-        exp = mk("call", mk("attr", mk("attr", self_t, "_env"), "render"), (sl,), ())
+        exp = mk("call", mk("attr", mk("attr", self_t, wrapper_env_attr(tree)), "render"), (sl,), ())
         res.add("C14.R3", f.loc(), f"wrappers.{c}.render", "render(state) == env.render(tree_slice(state, 0))", r is exp, txt(r, 6, 200))
     res.analysed = {"classes": [W + "VmapWrapper", W + "VmapAutoResetWrapper", W + "AutoResetWrapper"], "vmap_call_sites": n,
                     "functions": len(vfg.visited_funcs)}
